@@ -238,6 +238,11 @@ def check_add_edge(ctx, res: Result, cls: str):
         sid = _cfgid(v, st.at)
         # ---- P-FRESH: the record-creating store is dominated by "key not in _edge_list"
         guard = _fresh_guard(v, "_edge_list", st.key, sid)
+        if guard is None and _opaque_guard(v, st.node):
+            # `plan = plan_insertion(self._edge_list, ...); if isinstance(plan, Insertion): self._edge_list[plan.edge] = ...`:
+            # whether the key is fresh was decided by the planner that was handed the index
+            res.unknown("P-FRESH", f, norm(st.node), "_edge_list", "the record is created on a branch chosen by a value another function computed from the edge index; the freshness test is not in this function", _where(v, st.node))
+            continue
         res.check(
             guard is not None,
             "P-FRESH",
@@ -513,6 +518,25 @@ def check_record_creation_guarded(ctx, res: Result, cls: str, skip=("add_edge", 
             res.check(ok, "P-FRESH", fi.short, norm(st.node), "_edge_list", "an edge record is (re-)keyed without a dominating `key not in _edge_list` test: an existing record under that key is overwritten instead of merged", _where(v, st.node))
 
 
+def _opaque_guard(v: FuncView, node) -> bool:
+    """`node` stands under an `if` whose test is (a field of) a local that was assigned from a call - a verdict computed by
+    another function, not a test this function spells out"""
+    for iff in v.enclosing_all(node, (ast.If,)):
+        for x in ast.walk(iff.test):
+            r = x
+            while isinstance(r, ast.Attribute):
+                r = r.value
+            if isinstance(r, ast.Name) and r.id != "self" and r is not x or (isinstance(x, ast.Name) and x.id != "self"):
+                nm = r.id if isinstance(r, ast.Name) else None
+                if nm is None:
+                    continue
+                d = v.resolve(ast.Name(id=nm, ctx=ast.Load()))
+                defs = [a for a in walk_no_nested(v.fi.node) if isinstance(a, ast.Assign) and any(isinstance(n, ast.Name) and n.id == nm for t in a.targets for n in ([t] if isinstance(t, ast.Name) else t.elts if isinstance(t, (ast.Tuple, ast.List)) else []))]
+                if defs and all(isinstance(a.value, ast.Call) and not (isinstance(a.value.func, ast.Attribute) and a.value.func.attr in ("get", "pop")) for a in defs):
+                    return True
+    return False
+
+
 # ----------------------------------------------------------------------------- remove_edge
 def check_remove_edge(ctx, res: Result, cls: str):
     v = ctx.view(f"{cls}.remove_edge")
@@ -528,12 +552,22 @@ def check_remove_edge(ctx, res: Result, cls: str):
             if not w:
                 _absent(res, v, "P-DEL", norm(d.node), tab, f"removing a hyperedge never deletes its entry from {tab} (stale weight / metadata / reverse index)", _where(v, d.node))
             else:
-                res.check(v.passes_through(did, ids), "P-DEL", f, norm(d.node), tab, f"removing a hyperedge does not delete its entry from {tab} on every path (stale weight / metadata / reverse index)", _where(v, d.node))
+                every = v.passes_through(did, ids)
+                if not every and all(_opaque_guard(v, o.node) for o in w if not o.via):
+                    # `if plan.drop_weight: del self._weights[plan.edge_id]`: the deletion hangs on a flag computed elsewhere (by a
+                    # planner that was handed the tables); whether the flag is "the entry exists" is not decided here
+                    res.unknown("P-DEL", f, norm(d.node), tab, f"the deletion from {tab} is conditional on a value computed by another function", _where(v, d.node))
+                else:
+                    res.check(every, "P-DEL", f, norm(d.node), tab, f"removing a hyperedge does not delete its entry from {tab} on every path (stale weight / metadata / reverse index)", _where(v, d.node))
             for o in w:
                 if o.via or o.may or o.key is None:
                     continue
                 kk = v.kind(o.key)
-                bad = not isinstance(kk, (_Top, Union)) and kk != EID
+                from .kinds import Fn as _Fn
+
+                # positively another quantity (a node, a key, a weight): wrong.  A value whose kind was not inferred (a field of a
+                # plan record, a bound method value) is undecided
+                bad = not isinstance(kk, (_Top, Union, _Fn)) and kk != EID
                 res.add("P-DEL", f, norm(o.node), tab + ":key", "ok" if kk == EID else ("violation" if bad else "unknown"), "" if not bad else f"deletion key has kind {kk!r}", _where(v, o.node))
         for tab in T.ADJ_TABLES[cls]:
             rm = [o for o in v.ops(with_calls=True) if o.table == tab and o.op == "remove" and o.elem_level]
@@ -672,6 +706,25 @@ def check_add_node(ctx, res: Result, cls: str):
                 "an existing node's entry is overwritten by add_node (node metadata must survive hyperedge insertions)" if tab == "_node_metadata" else "an existing node's adjacency entry is reset by add_node",
                 _where(v, o.node),
             )
+    # ---- the metadata argument is not confined to the creation branch: a node that exists with empty metadata (it was
+    # introduced by a hyperedge) receives the metadata of a later add_node(node, metadata) - all four containers agree on it
+    args = v.fi.node.args.args
+    mpar = args[2].arg if len(args) > 2 else None
+    if mpar:
+        allw = [o for o in v.ops(with_calls=True) if o.table == "_node_metadata" and o.op in ("store", "aug", "call", "setattr") and not o.elem_level]
+
+        def from_param(o):
+            val = o.value if o.value is not None else o.node
+            return any(isinstance(x, ast.Name) and x.id == mpar for x in ast.walk(v.inline(val, depth=3)))
+
+        fed = [o for o in allw if o.op == "store" and not o.via and o.value is not None and from_param(o)]
+        outside = [o for o in allw if not any(v.cfg.branch_dominated(t, l, _cfgid(v, o.at)) for t, l, _ in guards)]
+        if fed and not outside:
+            _absent(res, v, "P-NODE", norm(fed[0].node), "_node_metadata:existing", f"the `{mpar}` argument of add_node is stored only on the `node is new` branch: a node that already exists with empty metadata (created by a hyperedge insertion) silently loses the metadata handed to add_node", _where(v, fed[0].node))
+        elif fed and outside:
+            res.ok("P-NODE", f, norm(outside[0].node), "_node_metadata:existing", _where(v, outside[0].node))
+        else:
+            res.unknown("P-NODE", f, f"_node_metadata[node] = {mpar}", "_node_metadata:existing", "how the metadata argument reaches the node table was not established", _where(v, v.fi.node))
 
 
 def _under_empty_test(v: FuncView, o: TOp) -> bool:
@@ -1344,3 +1397,43 @@ def check_canon_key(ctx, res: Result, cls: str, rule="K-CANONORD"):
             res.add(rule, fi.short, norm(n)[:100], "natural-order", "violation" if derived else "unknown", f"the nodes of a hyperedge are ordered by `{txt[:60]}`, not by the labels themselves: equal labels of different type (1 and numpy.int64(1)) are placed differently, so the same node set gets two canonical keys (two records, weights not merged)" if derived else "sorted with a custom key", loc(fi, n))
     if n_sorts == 0:
         res.unknown(rule, cls, "tuple(sorted(edge))", "natural-order", "no sorting call found in the canonicalisation code of the class", mod.relpath)
+
+
+def check_merge_key(ctx, res: Result, cls: str, rule="P-MERGEKEY"):
+    """Where a method has just established that a key K IS a record (`K in _edge_list`, the non-fresh arm of the membership
+    test), the weight / metadata it merges there goes to the record of K: an update addressed through `_edge_list[K2]` with
+    another key K2 writes into a different record (typically the one that is being removed)."""
+    res.rules.setdefault(rule, "on the arm where a key was found in the edge index, merged weight / metadata is addressed through that same key")
+    n_sites = 0
+    for name, fi in sorted(ctx.methods(cls).items()):
+        v = ctx.view(fi)
+        mems = _membership_atoms(v, "_edge_list")
+        if not mems:
+            continue
+        for m in mems:
+            ab = m.absent_branch()
+            if ab is None:
+                continue
+            present = "F" if ab == "T" else "T"
+            tid = v.cfg.by_ast.get(id(m.ifnode.test))
+            if tid is None:
+                continue
+            for n in walk_no_nested(fi.node):
+                if not isinstance(n, (ast.Assign, ast.AugAssign)):
+                    continue
+                tg = n.targets if isinstance(n, ast.Assign) else [n.target]
+                for t in tg:
+                    if not (isinstance(t, ast.Subscript) and (v.table_of(t.value) or (None, None))[1] in ("_weights", "_edge_metadata")):
+                        continue
+                    # the id is looked up through the edge index: T[ self._edge_list[K2] ]
+                    idx = t.slice
+                    if not (isinstance(idx, ast.Subscript) and (v.table_of(idx.value) or (None, None))[1] == "_edge_list"):
+                        continue
+                    nid = v.cfg_id(n)
+                    if nid is None or not v.cfg.branch_dominated(tid, present, nid):
+                        continue
+                    n_sites += 1
+                    same = _same_expr(idx.slice, m.key, v)
+                    res.add(rule, fi.short, norm(n)[:110], "same-key", "ok" if same else "violation", "" if same else f"`{norm(m.key)}` was found in the edge index, but the update goes to the record of `{norm(idx.slice)}`: the existing record keeps its old weight / metadata (and what was written is lost if that other record is removed)", _where(v, n))
+    if n_sites == 0:
+        res.ok(rule, cls, "no merge addressed through the edge index on a found-key arm", "scan", ctx.prog.cls(cls).module.relpath)
